@@ -36,6 +36,7 @@ func runC01(c *Ctx) {
 	c01Single(c)
 	c01PerInterface(c)
 	c01Pref64Lifetime(c)
+	c01PrepareKeepsConfig(c)
 	scratchAliasing(c, "R-C01-7", fnsInPkgs(c, "internal/plugin", "internal/config"), "an option built earlier (or the configuration itself) is overwritten when the next one is built")
 	// "exactly the options the configuration calls for … for every interface address list / loopback
 	// route list": the wildcard stanzas expand by the rules of C13–C15, which are shared here
@@ -886,4 +887,99 @@ func isWireFormName(e *an.Expr) bool {
 	}
 	el := t.Args[0]
 	return el.Op == an.OpElem && len(el.Args) == 2 && el.Args[0].IsField("DomainNames") && el.Args[0].Args[0].Op == an.OpParam && el.Args[1].Contains(func(x *an.Expr) bool { return x.Op == an.OpLoop })
+}
+
+// c01PrepareKeepsConfig (R-C01-8): Prepare runs on every (re-)dial of the
+// advertiser against the plugin instances held by the configuration. It may
+// fill in what depends on the interface (address sources, the clock, the
+// hardware address) but not state the configuration itself wrote: a value of
+// the configuration overwritten by Prepare is gone for every later RA.
+// "Configured" is read from the repository: every field of a plugin type that
+// package config or a plugin New* constructor stores, and the whole value of a
+// plugin type that is not a struct.
+func c01PrepareKeepsConfig(c *Ctx) {
+	configured := map[string]bool{}
+	var prepares []*ssa.Function
+	for _, fn := range c.srcFuncs() {
+		if fn.Pkg == nil {
+			continue
+		}
+		pp := fn.Pkg.Pkg.Path()
+		isCfg := pp == PkgConfig
+		isCtor := pp == PkgPlugin && strings.HasPrefix(fn.Name(), "New") && fn.Signature.Recv() == nil
+		if pp == PkgPlugin && fn.Name() == "Prepare" && fn.Signature.Recv() != nil {
+			prepares = append(prepares, fn)
+		}
+		if !isCfg && !isCtor {
+			continue
+		}
+		for _, b := range fn.Blocks {
+			for _, in := range b.Instrs {
+				st, ok := in.(*ssa.Store)
+				if !ok {
+					continue
+				}
+				for v := st.Addr; ; {
+					fa, ok := v.(*ssa.FieldAddr)
+					if !ok {
+						break
+					}
+					if pk, tn, f := an.FieldAddrName(fa); pk == PkgPlugin {
+						configured[tn+"."+f] = true
+					}
+					v = fa.X
+				}
+			}
+		}
+	}
+	sort.Slice(prepares, func(i, j int) bool { return prepares[i].String() < prepares[j].String() })
+	reach := an.ModuleReach(prepares, load.InModule, nil)
+	var fns []*ssa.Function
+	for f := range reach {
+		if f.Pkg != nil && f.Pkg.Pkg.Path() == PkgPlugin {
+			fns = append(fns, f)
+		}
+	}
+	sort.Slice(fns, func(i, j int) bool { return fns[i].String() < fns[j].String() })
+	n := 0
+	for _, fn := range fns {
+		name := c.fname(fn)
+		for _, b := range fn.Blocks {
+			for _, in := range b.Instrs {
+				st, ok := in.(*ssa.Store)
+				if !ok {
+					continue
+				}
+				root, path := addrRoot(st.Addr)
+				par, ok := root.(*ssa.Parameter)
+				if !ok {
+					continue
+				}
+				pt, ok := par.Type().(*types.Pointer)
+				if !ok {
+					continue
+				}
+				nt, ok := pt.Elem().(*types.Named)
+				if !ok || nt.Obj().Pkg() == nil || nt.Obj().Pkg().Path() != PkgPlugin {
+					continue
+				}
+				n++
+				tn := nt.Obj().Name()
+				target := tn
+				bad := false
+				if len(path) == 0 {
+					target += " (whole value)"
+					bad = true // replaces every configured field at once
+				} else {
+					target = tn + "." + path[0]
+					bad = configured[target]
+				}
+				c.R.Check(!bad, "R-C01-8", name+":prepare-writes:"+target, name, c.pos(st.Pos()), "Prepare stores to "+target,
+					"Prepare writes only interface-derived state (fields that neither package config nor a New* constructor sets)",
+					"the configured value is overwritten when the advertiser (re-)dials: later RAs no longer carry the configured values")
+			}
+		}
+	}
+	c.R.Check(len(configured) >= 20, "R-C01-8", "plugin:configured-fields", "", "", fmt.Sprintf("%d plugin field(s) written by package config / New* constructors", len(configured)), ">= 20", "anchor-missing")
+	c.R.Check(n >= 6, "R-C01-8", "plugin:prepare-stores", "", "", fmt.Sprintf("%d store(s) through a Prepare receiver", n), ">= 6", "anchor-missing")
 }
